@@ -1,23 +1,161 @@
-#![allow(unused_imports, dead_code, unused_variables, unused_mut, unreachable_code)]
-// Unit `state`: the file writer's state machine (src/writers/file_log_writer/state.rs)
+#![feature(print_internals)]
+#![allow(unused_imports, dead_code, unused_variables, unused_mut, unreachable_code, unused_parens)]
+// Unit `state`: the file writer's state machine (src/writers/file_log_writer/state.rs, state/numbers.rs)
+// Functions marked `//@ fn` are copied byte for byte from /repo on every run and verified against the
+// contracts woven here; `//@ sig` are callees whose contract is assumed in this unit.
 use vstd::prelude::*;
 verus! {
 //@ include prelude/base.rs
 
+pub mod flexi_error {
+    use super::*;
+    use vstd::std_specs::convert::FromSpecImpl;
+    /// SHIM (trusted): the variants of `FlexiLoggerError` that the functions of this unit can produce.
+    /// The real enum derives `thiserror::Error`; `#[from] std::io::Error` is the conversion used by `?`.
+    pub enum FlexiLoggerError { Reset, NoFileLogger, OutputBadDirectory, OutputIo(std::io::Error), Poison }
+    impl From<std::io::Error> for FlexiLoggerError {
+        fn from(e: std::io::Error) -> (r: FlexiLoggerError) { FlexiLoggerError::OutputIo(e) }
+    }
+    impl FromSpecImpl<std::io::Error> for FlexiLoggerError {
+        open spec fn obeys_from_spec() -> bool { true }
+        open spec fn from_spec(e: std::io::Error) -> FlexiLoggerError { FlexiLoggerError::OutputIo(e) }
+    }
+}
+
+pub mod util {
+    use super::*;
+    //@ item src/util.rs enum ErrorCode
+    /// permission: which error codes the function under proof may report (DESIGN 3.4)
+    pub uninterp spec fn reportable(code: ErrorCode) -> bool;
+    pub trait VErr {}
+    impl VErr for std::io::Error {}
+    impl VErr for super::flexi_error::FlexiLoggerError {}
+    /// SHIM for `eprint_err(code, msg, &dyn Error)`: the error channel is outside this unit
+    #[verifier::external_body]
+    pub(crate) fn eprint_err<E: VErr>(error_code: ErrorCode, msg: &str, err: &E)
+        requires reportable(error_code)
+    { unimplemented!() }
+}
+
 pub mod parameters {
     use super::*;
+    use std::path::PathBuf;
     //@ item src/parameters/age.rs enum Age
     //@ item src/parameters/criterion.rs enum Criterion
+    //@ item src/parameters/cleanup.rs enum Cleanup
+    //@ item src/parameters/naming.rs enum Naming
+    impl Cleanup {
+    //@ fn src/parameters/cleanup.rs impl Cleanup / fn do_cleanup
+    //@   ret r
+    //@   props C07
+    //@   ens[do_cleanup.post] r == !(self is Never)
+    }
+    impl Naming {
+        pub(crate) open spec fn writes_direct_spec(self) -> bool {
+            match self {
+                Naming::NumbersDirect | Naming::TimestampsDirect => true,
+                Naming::TimestampsCustomFormat { current_infix, format } => current_infix is None || current_infix->Some_0@.len() == 0,
+                _ => false,
+            }
+        }
+        //@ sig src/parameters/naming.rs impl Naming / fn writes_direct
+        //@   ret r
+        //@   ens r == self.writes_direct_spec()
+    }
+
+    //@ opaque src/parameters/file_spec.rs struct FileSpec
+    //@   dropattr #[derive
+    impl Clone for FileSpec {
+        #[verifier::external_body]
+        fn clone(&self) -> (r: FileSpec) ensures r == *self { unimplemented!() }
+    }
+    pub open spec fn ostr(o: Option<&str>) -> Option<Seq<char>> { match o { Some(s) => Some(s@), None => None } }
+    impl FileSpec {
+        /// the path `as_pathbuf` computes (defined and proved in unit `naming`)
+        pub uninterp spec fn path_spec(&self, o_infix: Option<Seq<char>>) -> Seq<char>;
+        /// result of the directory scan behind `collision_free_infix_for_rotated_file` (not decided)
+        pub uninterp spec fn collision_free_spec(&self, infix: Seq<char>) -> Seq<char>;
+        //@ sig src/parameters/file_spec.rs impl FileSpec / fn as_pathbuf
+        //@   ret r
+        //@   ens pathbuf_view(&r) == self.path_spec(ostr(o_infix))
+        //@ sig src/parameters/file_spec.rs impl FileSpec / fn collision_free_infix_for_rotated_file
+        //@   ret r
+        //@   ens r@ == self.collision_free_spec(infix@)
+    }
+}
+
+pub mod write_mode {
+    use super::*;
+    use std::time::Duration;
+    //@ item src/write_mode.rs const DEFAULT_BUFFER_CAPACITY
+    //@ item src/write_mode.rs enum WriteMode
+    //@ item src/write_mode.rs enum EffectiveWriteMode
+    impl WriteMode {
+        /// C15: buffered exactly for the Buffer* modes, with the configured or default capacity
+        pub(crate) open spec fn buffersize_spec(&self) -> Option<usize> {
+            match self {
+                WriteMode::BufferAndFlush | WriteMode::BufferDontFlush => Some(8192usize),
+                WriteMode::BufferAndFlushWith(n, _) => Some(*n),
+                WriteMode::BufferDontFlushWith(n) => Some(*n),
+                _ => None,
+            }
+        }
+    //@ fn src/write_mode.rs impl WriteMode / fn effective_write_mode
+    //@   ret r
+    //@   props C15
+    //@   ens[effective_write_mode.post] match r {
+    //@       EffectiveWriteMode::Direct => self is Direct || self is SupportCapture,
+    //@       EffectiveWriteMode::BufferAndFlushWith(n) => Some(n) == self.buffersize_spec() && (self is BufferAndFlush || self is BufferAndFlushWith),
+    //@       EffectiveWriteMode::BufferDontFlushWith(n) => Some(n) == self.buffersize_spec() && (self is BufferDontFlush || self is BufferDontFlushWith),
+    //@       _ => !(self is Direct || self is SupportCapture) && self.buffersize_spec() is None,
+    //@   }
+    //@ fn src/write_mode.rs impl WriteMode / fn buffersize
+    //@   ret r
+    //@   props C15
+    //@   ens[buffersize.post] r == self.buffersize_spec()
+    }
+}
+
+pub mod config {
+    use super::*;
+    use super::parameters::{Cleanup, Criterion, FileSpec, Naming};
+    use super::write_mode::WriteMode;
+    use std::path::PathBuf;
+    //@ item src/writers/file_log_writer/config.rs struct RotationConfig
+    //@ item src/writers/file_log_writer/config.rs struct FileLogWriterConfig
+}
+
+pub mod infix_filter {
+    use super::*;
+    use super::state::InfixFormat;
+    //@ item src/writers/file_log_writer/infix_filter.rs enum InfixFilter
 }
 
 pub mod state {
     use super::*;
-    use super::parameters::{Age, Criterion};
+    use super::config::{FileLogWriterConfig, RotationConfig};
+    use super::infix_filter::InfixFilter;
+    use super::util::{eprint_err, ErrorCode};
+    use super::parameters::{Age, Cleanup, Criterion, Naming, FileSpec, ostr};
+    use super::flexi_error::FlexiLoggerError;
     use chrono::{DateTime, Datelike, Local, Timelike};
-    use std::path::{Path, PathBuf};
+    use std::{
+        fs::{remove_file, File, OpenOptions},
+        io::{BufWriter},
+        path::{Path, PathBuf},
+    };
+    use timestamps::{creation_timestamp_of_currentfile, infix_from_timestamp, latest_timestamp_file};
 
-    // ---- specification vocabulary (hand written) ---------------------------------------------
-    pub open spec fn same_period(age: Age, a: &DateTime<Local>, b: &DateTime<Local>) -> bool {
+    broadcast use group_aspath, cmp_axioms::group_errorkind_eq, ax_fmt_req_all_path_display, vstd::std_specs::fmt::group_fmt_axioms;
+
+    //@ item src/writers/file_log_writer/state.rs const CURRENT_INFIX
+    //@   rule R6 1
+
+    // =========================================================================================
+    // specification vocabulary (hand written)
+    // =========================================================================================
+    /// C09: "the local clock shows the same day / hour / minute / second"
+    pub(crate) open spec fn same_period(age: Age, a: &DateTime<Local>, b: &DateTime<Local>) -> bool {
         let d = dt_year(a) == dt_year(b) && dt_month(a) == dt_month(b) && dt_day(a) == dt_day(b);
         match age {
             Age::Day => d,
@@ -26,23 +164,119 @@ pub mod state {
             Age::Second => d && dt_hour(a) == dt_hour(b) && dt_minute(a) == dt_minute(b) && dt_second(a) == dt_second(b),
         }
     }
+    /// oracle: the time stamp `get_creation_timestamp` reads for a path (created, else modified, else now)
+    pub uninterp spec fn fs_created_ts(p: Seq<char>) -> Result<DateTime<Local>, FlexiLoggerError>;
+    pub uninterp spec fn fs_modified_ts(p: Seq<char>) -> Result<DateTime<Local>, FlexiLoggerError>;
+    /// C09 anchor "fallback chain": creation time, else modification time, else the current time
+    pub(crate) open spec fn creation_ts(p: Seq<char>) -> DateTime<Local> {
+        match fs_created_ts(p) {
+            Ok(t) => t,
+            Err(_) => match fs_modified_ts(p) { Ok(t) => t, Err(_) => clock_now() },
+        }
+    }
 
+    pub(crate) open spec fn open_flags(config: &FileLogWriterConfig) -> OpenFlags {
+        OpenFlags { write: true, create: true, append: config.append, truncate: !config.append }
+    }
+    pub(crate) open spec fn fresh_wview() -> WView { WView { written: Seq::<u8>::empty(), flushed: 0, flush_calls: 0 } }
+
+    pub ghost enum FmtV { Std, Custom(Seq<char>) }
+    pub ghost enum NamingV {
+        Ts { ts: DateTime<Local>, cur: Option<Seq<char>>, fmt: FmtV },
+        NumR(u32),
+        NumD(u32),
+    }
+    pub(crate) open spec fn ostring(o: Option<String>) -> Option<Seq<char>> { match o { Some(s) => Some(s@), None => None } }
+
+    // ---- NamingState ------------------------------------------------------------------------
+    //@ item src/writers/file_log_writer/state.rs enum NamingState
+    //@ item src/writers/file_log_writer/state.rs enum InfixFormat
+    //@   dropattr #[derive
+    /// SHIM (trusted): `#[derive(Clone)]` yields a structurally equal value (Verus cannot derive a spec for an enum holding a String)
+    impl Clone for InfixFormat {
+        #[verifier::external_body]
+        fn clone(&self) -> (r: InfixFormat) ensures r == *self { unimplemented!() }
+    }
+    impl InfixFormat {
+        pub(crate) open spec fn fview(&self) -> FmtV { match self { InfixFormat::Std => FmtV::Std, InfixFormat::Custom(s) => FmtV::Custom(s@) } }
+        //@ sig src/writers/file_log_writer/state.rs impl InfixFormat / fn custom
+        //@   ret r
+        //@   ens r is Custom && r->Custom_0@ == fmt@
+    }
+    impl NamingState {
+        pub(crate) closed spec fn infix_filter_spec(&self) -> InfixFilter {
+            match self {
+                NamingState::Timestamps { infix_format, .. } => InfixFilter::Timstmps(*infix_format),
+                _ => InfixFilter::Numbrs,
+            }
+        }
+        pub(crate) closed spec fn nview(&self) -> NamingV {
+            match self {
+                NamingState::Timestamps { current_timestamp, the_current_infix, infix_format } =>
+                    NamingV::Ts { ts: *current_timestamp, cur: ostring(*the_current_infix), fmt: infix_format.fview() },
+                NamingState::NumbersRCurrent(i) => NamingV::NumR(*i),
+                NamingState::NumbersDirect(i) => NamingV::NumD(*i),
+            }
+        }
+        pub(crate) closed spec fn direct(&self) -> bool {
+            self is NumbersDirect || (self is Timestamps && self->the_current_infix is None)
+        }
+        //@ fn src/writers/file_log_writer/state.rs impl NamingState / fn writes_direct
+        //@   ret r
+        //@   props C07
+        //@   ens[NamingState::writes_direct.post] r == self.direct()
+        //@ fn src/writers/file_log_writer/state.rs impl NamingState / fn infix_filter
+        //@   ret r
+        //@   props C07,C14
+        //@   ens[NamingState::infix_filter.post] r == self.infix_filter_spec()
+    }
+
+    // ---- RollState --------------------------------------------------------------------------
     //@ item src/writers/file_log_writer/state.rs enum RollState
     impl RollState {
         spec fn has_size(&self) -> bool { self is Size || self is AgeOrSize }
         spec fn has_age(&self) -> bool { self is Age || self is AgeOrSize }
         spec fn cur(&self) -> u64 { match self { RollState::Size{current_size, ..} => *current_size, RollState::AgeOrSize{current_size, ..} => *current_size, _ => 0 } }
         spec fn max(&self) -> u64 { match self { RollState::Size{max_size, ..} => *max_size, RollState::AgeOrSize{max_size, ..} => *max_size, _ => 0 } }
+        spec fn age(&self) -> Age { match self { RollState::Age{age, ..} => *age, RollState::AgeOrSize{age, ..} => *age, _ => Age::Day } }
+        spec fn created(&self) -> DateTime<Local> { match self { RollState::Age{created_at, ..} => *created_at, RollState::AgeOrSize{created_at, ..} => *created_at, _ => clock_now() } }
+        /// C08: the current file already holds more than N bytes
         spec fn size_part(&self) -> bool { self.has_size() && self.cur() > self.max() }
-        spec fn age_part(&self) -> bool {
+        /// C09: the clock shows a later period than the one in which the current file was started
+        spec fn age_part(&self) -> bool { self.has_age() && !same_period(self.age(), &self.created(), &clock_now()) }
+        spec fn should_rotate(&self) -> bool { self.size_part() || self.age_part() }
+        /// the roll state after a rotation to the file at `p`
+        spec fn reset_to(&self, p: Seq<char>) -> RollState {
             match self {
-                RollState::Age{age, created_at} => !same_period(*age, created_at, &clock_now()),
-                RollState::AgeOrSize{age, created_at, ..} => !same_period(*age, created_at, &clock_now()),
-                _ => false,
+                RollState::Size{max_size, ..} => RollState::Size{max_size: *max_size, current_size: 0},
+                RollState::Age{age, ..} => RollState::Age{age: *age, created_at: creation_ts(p)},
+                RollState::AgeOrSize{age, max_size, ..} => RollState::AgeOrSize{age: *age, created_at: creation_ts(p), max_size: *max_size, current_size: 0},
             }
         }
-        spec fn should_rotate(&self) -> bool { self.size_part() || self.age_part() }
+        spec fn plus(&self, add: u64) -> RollState {
+            match self {
+                RollState::Size{max_size, current_size} => RollState::Size{max_size: *max_size, current_size: (*current_size + add) as u64},
+                RollState::Age{..} => *self,
+                RollState::AgeOrSize{age, created_at, max_size, current_size} => RollState::AgeOrSize{age: *age, created_at: *created_at, max_size: *max_size, current_size: (*current_size + add) as u64},
+            }
+        }
+        spec fn seeded(criterion: Criterion, size: u64, p: Seq<char>) -> RollState {
+            match criterion {
+                Criterion::Age(age) => RollState::Age { age, created_at: creation_ts(p) },
+                Criterion::Size(max_size) => RollState::Size { max_size, current_size: size },
+                Criterion::AgeOrSize(age, max_size) => RollState::AgeOrSize { age, created_at: creation_ts(p), max_size, current_size: size },
+            }
+        }
 
+    //@ fn src/writers/file_log_writer/state.rs impl RollState / fn new
+    //@   ret r
+    //@   props C08,C06
+    //@   ens[RollState::new.post.seed] match r {
+    //@       Ok(rs) => rs == RollState::seeded(criterion, if append { metadata_len(&fs_metadata_result(path_view(path))->Ok_0) } else { 0 }, path_view(path))
+    //@                 && (append ==> fs_metadata_result(path_view(path)) is Ok),
+    //@       Err(_) => append && fs_metadata_result(path_view(path)) is Err,
+    //@   }
+    //@   canary
     //@ fn src/writers/file_log_writer/state.rs impl RollState / fn rotation_necessary
     //@   ret r
     //@   props C08,C09,C01
@@ -58,7 +292,252 @@ pub mod state {
     //@   props C09,C01
     //@   ens[age_rotation_necessary.post] r == !same_period(age, created_at, &clock_now())
     //@   canary
+    //@ fn src/writers/file_log_writer/state.rs impl RollState / fn reset_size_and_date
+    //@   props C08,C09,C01
+    //@   ens[reset_size_and_date.post] *final(self) == old(self).reset_to(path_view(path))
+    //@   canary
+    //@ sig src/writers/file_log_writer/state.rs impl RollState / fn increase_size
+    //@   req old(self).has_size() ==> old(self).cur() + add <= u64::MAX
+    //@   ens *final(self) == old(self).plus(add)
+    }
+
+    // ---- RotationState / Inner / State -------------------------------------------------------
+    //@ item src/writers/file_log_writer/state.rs struct RotationState
+    impl RotationState {
+    //@ fn src/writers/file_log_writer/state.rs impl RotationState / fn shutdown
+    //@   props C04
+    //@   ens[RotationState::shutdown.post] final(self).o_cleanup_thread_handle is None
+    //@   ens[RotationState::shutdown.frame] final(self).naming_state == old(self).naming_state && final(self).roll_state == old(self).roll_state && final(self).cleanup == old(self).cleanup
+    }
+    //@ item src/writers/file_log_writer/state.rs enum Inner
+    //@   rule R1 1
+    impl Inner {
+    //@ fn src/writers/file_log_writer/state.rs impl Inner / fn uses_rotation
+    //@   ret r
+    //@   props C16
+    //@   ens[uses_rotation.post] r == match self { Inner::Initial(o_r, _) => o_r is Some, Inner::Active(o_r, _, _) => o_r is Some }
+    }
+    //@ item src/writers/file_log_writer/state.rs struct State
+    //@   dropattr #[derive(Debug)]
+
+    impl State {
+        pub closed spec fn active(&self) -> bool { self.inner is Active }
+        pub closed spec fn has_rot(&self) -> bool { self.inner is Active && self.inner->Active_0 is Some }
+        pub closed spec fn w(&self) -> WView { self.inner->Active_1@ }
+        pub closed spec fn wsrc(&self) -> WSrc { self.inner->Active_1.src() }
+        pub closed spec fn path(&self) -> Seq<char> { pathbuf_view(&self.inner->Active_2) }
+        spec fn rot(&self) -> RotationState { self.inner->Active_0->Some_0 }
+        pub closed spec fn should_rotate(&self) -> bool { self.has_rot() && self.rot().roll_state.should_rotate() }
+        pub closed spec fn cfg(&self) -> FileLogWriterConfig { self.config }
+        /// A5: machine arithmetic premises
+        pub closed spec fn arith_ok(&self, add: int) -> bool {
+            self.has_rot() ==> {
+                &&& (self.rot().roll_state.has_size() ==> self.rot().roll_state.cur() + add <= u64::MAX)
+                &&& (self.rot().naming_state is NumbersDirect ==> self.rot().naming_state->NumbersDirect_0 < u32::MAX)
+                &&& (self.rot().naming_state is NumbersRCurrent ==> self.rot().naming_state->NumbersRCurrent_0 < u32::MAX)
+            }
+        }
+
+        /// everything except the writer's view is the same
+        pub closed spec fn same_but_writer_view(&self, o: &State) -> bool {
+            self.config == o.config && match (self.inner, o.inner) {
+                (Inner::Active(r1, w1, p1), Inner::Active(r2, w2, p2)) => r1 == r2 && p1 == p2 && w1.src() == w2.src(),
+                (a, b) => a == b,
+            }
+        }
+
+        pub closed spec fn naming(&self) -> NamingV { self.rot().naming_state.nview() }
+        spec fn roll(&self) -> RollState { self.rot().roll_state }
+        spec fn writer(&self) -> VWriter { self.inner->Active_1 }
+
+        /// the naming step of a rotation: new naming view and infix of the next file; Err if the step failed
+        pub closed spec fn next_naming(cfg: &FileLogWriterConfig, n: NamingV) -> Result<(NamingV, Seq<char>), ()> {
+            match n {
+                NamingV::Ts { ts, cur: Some(c), fmt } => match timestamps::ctoc_result(cfg, c, true, Some(ts), fmt) {
+                    Ok(t) => Ok((NamingV::Ts { ts: t, cur: Some(c), fmt }, c)),
+                    Err(_) => Err(()),
+                },
+                NamingV::Ts { ts, cur: None, fmt } => Ok((NamingV::Ts { ts: clock_now(), cur: None, fmt },
+                    cfg.file_spec.collision_free_spec(timestamps::infix_from_ts_spec(clock_now(), cfg.use_utc, fmt)))),
+                NamingV::NumR(i) => match numbers::index_for_rcurrent_spec(cfg, Some(i), true) {
+                    Ok(j) => Ok((NamingV::NumR(j), CURRENT_INFIX@)),
+                    Err(_) => Err(()),
+                },
+                NamingV::NumD(i) => Ok((NamingV::NumD((i + 1) as u32), numbers::number_infix_spec((i + 1) as u32))),
+            }
+        }
+
+        /// contract of `mount_next_linewriter_if_necessary(force)` as a relation between pre and post state
+        pub closed spec fn mount_post(old: &State, force: bool, new: &State, ok: bool) -> bool {
+            &&& new.config == old.config
+            &&& if !(old.has_rot() && (force || old.should_rotate())) {
+                    ok && *new == *old
+                } else {
+                    &&& new.has_rot()
+                    &&& new.rot().cleanup == old.rot().cleanup
+                    &&& new.rot().o_cleanup_thread_handle == old.rot().o_cleanup_thread_handle
+                    &&& match State::next_naming(&old.config, old.naming()) {
+                        Err(_) => !ok && *new == *old,
+                        Ok((nm, infix)) => {
+                            &&& new.naming() == nm
+                            &&& {
+                                // the new file could not be opened: writer, path and roll state stay
+                                ||| (!ok && new.writer() == old.writer() && new.inner->Active_2 == old.inner->Active_2 && new.roll() == old.roll())
+                                // the writer was replaced by a fresh one on the next file
+                                ||| {
+                                    &&& new.w() == fresh_wview()
+                                    &&& new.wsrc() == src_for(&old.config, Some(infix))
+                                    &&& new.path() == old.config.file_spec.path_spec(Some(infix))
+                                    &&& new.roll() == old.roll().reset_to(new.path())
+                                    &&& (ok <==> list_and_cleanup::cleanup_result(new.rot().o_cleanup_thread_handle, &new.rot().cleanup, &old.config.file_spec,
+                                            &new.rot().naming_state.infix_filter_spec(), new.rot().naming_state.direct()) is Ok)
+                                }
+                            }
+                        },
+                    }
+                }
+        }
+
+    //@ fn src/writers/file_log_writer/state.rs impl State / fn mount_next_linewriter_if_necessary
+    //@   ret r
+    //@   props C01,C08,C09,C19,C07
+    //@   req[mount_next.pre.arith] old(self).arith_ok(0)
+    //@   ens[mount_next.post] State::mount_post(old(self), force, final(self), r is Ok)
+    //@   canary
+
+    //@ fn src/writers/file_log_writer/state.rs impl State / fn flush
+    //@   ret r
+    //@   props C04
+    //@   ens[flush.post.frame] final(self).same_but_writer_view(old(self))
+    //@   ens[flush.post.written] old(self).active() ==> final(self).w().written == old(self).w().written
+    //@   ens[flush.post.flushed] old(self).active() && r is Ok ==> final(self).w().flushed == final(self).w().written.len()
+    //@   ens[flush.post.called] old(self).active() ==> final(self).w().flush_calls == old(self).w().flush_calls + 1
+    //@   ens[flush.post.initial] !old(self).active() ==> r is Ok && *final(self) == *old(self)
+    //@   canary
+    }
+
+    /// what `open_log_file(config, o_infix)` attaches a fresh writer to (C06: append vs truncate; C15: buffering; C16: path)
+    pub(crate) open spec fn src_for(config: &FileLogWriterConfig, o_infix: Option<Seq<char>>) -> WSrc {
+        WSrc { path: config.file_spec.path_spec(o_infix), flags: open_flags(config), buffered: config.write_mode.buffersize_spec() }
+    }
+    //@ fn src/writers/file_log_writer/state.rs fn open_log_file
+    //@   ret r
+    //@   props C06,C15,C16,C01
+    //@   rule R1 2
+    //@   rule R1b 2
+    //@   ens[open_log_file.post.path] r is Ok ==> pathbuf_view(&r->Ok_0.1) == config.file_spec.path_spec(ostr(o_infix))
+    //@   ens[open_log_file.post.fresh] r is Ok ==> r->Ok_0.0@ == fresh_wview()
+    //@   ens[open_log_file.post.src] r is Ok ==> r->Ok_0.0.src() == src_for(config, ostr(o_infix))
+    //@   canary
+
+    // ---- free functions of state.rs ----------------------------------------------------------------
+    //@ fn src/writers/file_log_writer/state.rs fn get_creation_timestamp
+    //@   ret r
+    //@   props C09
+    //@   closure 1 sig |_e: FlexiLoggerError| -> (r: Result<DateTime<Local>, FlexiLoggerError>)
+    //@   closure 1 ens r == fs_modified_ts(path_view(path))
+    //@   closure 2 sig |_e: FlexiLoggerError| -> (r: DateTime<Local>)
+    //@   closure 2 ens r == clock_now()
+    //@   ens[get_creation_timestamp.post] r == creation_ts(path_view(path))
+    //@ sig src/writers/file_log_writer/state.rs fn try_get_creation_timestamp
+    //@   ret r
+    //@   ens r == fs_created_ts(path_view(path))
+    //@ sig src/writers/file_log_writer/state.rs fn try_get_modification_timestamp
+    //@   ret r
+    //@   ens r == fs_modified_ts(path_view(path))
+    //@ fn src/writers/file_log_writer/state.rs fn get_current_timestamp
+    //@   ret r
+    //@   props C09
+    //@   ens[get_current_timestamp.post] r == clock_now()
+
+    // ---- callees outside state.rs proper ---------------------------------------------------------
+    pub mod timestamps {
+        use super::*;
+        /// oracles for the directory / name computations of timestamps.rs (not decided in this unit)
+        pub uninterp spec fn infix_from_ts_spec(ts: DateTime<Local>, use_utc: bool, fmt: FmtV) -> Seq<char>;
+        pub uninterp spec fn ctoc_result(config: &FileLogWriterConfig, current_infix: Seq<char>, rotate: bool,
+            o_date: Option<DateTime<Local>>, fmt: FmtV) -> Result<DateTime<Local>, std::io::Error>;
+        pub uninterp spec fn latest_ts_spec(config: &FileLogWriterConfig, rotate: bool, fmt: FmtV) -> DateTime<Local>;
+        pub(crate) open spec fn odate(o: Option<&DateTime<Local>>) -> Option<DateTime<Local>> { match o { Some(d) => Some(*d), None => None } }
+        //@ sig src/writers/file_log_writer/state/timestamps.rs fn infix_from_timestamp
+        //@   ret r
+        //@   ens r@ == infix_from_ts_spec(*ts, use_utc, fmt.fview())
+        //@ sig src/writers/file_log_writer/state/timestamps.rs fn creation_timestamp_of_currentfile
+        //@   ret r
+        //@   ens r == ctoc_result(config, current_infix@, rotate_rcurrent, odate(o_date_for_rotated_file), fmt.fview())
+        //@ sig src/writers/file_log_writer/state/timestamps.rs fn latest_timestamp_file
+        //@   ret r
+        //@   ens r == latest_ts_spec(config, rotate, fmt.fview())
+    }
+    pub mod numbers {
+        use super::*;
+        use super::super::parameters::FileSpec;
+        broadcast use group_aspath, cmp_axioms::group_errorkind_eq;
+        /// `r{idx:0>5}`: format! is outside the verifier; injectivity is NOT assumed anywhere
+        pub uninterp spec fn number_infix_spec(idx: u32) -> Seq<char>;
+        /// oracle for the directory scan of get_highest_index (not decided)
+        pub uninterp spec fn highest_index_spec(file_spec: &FileSpec) -> Option<u32>;
+        //@ sig src/writers/file_log_writer/state/numbers.rs fn number_infix
+        //@   ret r
+        //@   ens r@ == number_infix_spec(idx)
+        //@ sig src/writers/file_log_writer/state/numbers.rs fn get_highest_index
+        //@   ret r
+        //@   ens r == highest_index_spec(file_spec)
+
+        /// C01/C06: index to rotate to / start with, as a function of the answer of the rename
+        pub(super) open spec fn index_for_rcurrent_spec(config: &FileLogWriterConfig, o_idx: Option<u32>, rotate: bool) -> Result<u32, std::io::Error> {
+            let start: u32 = match o_idx {
+                Some(i) => i,
+                None => match highest_index_spec(&config.file_spec) { Some(h) => (h + 1) as u32, None => 0 },
+            };
+            if !rotate { Ok(start) } else {
+                match fs_rename_result(config.file_spec.path_spec(Some(CURRENT_INFIX@)), config.file_spec.path_spec(Some(number_infix_spec(start)))) {
+                    Ok(()) => Ok((start + 1) as u32),
+                    Err(e) => if io_error_kind(&e) == std::io::ErrorKind::NotFound { Ok(start) } else { Err(e) },
+                }
+            }
+        }
+        //@ fn src/writers/file_log_writer/state/numbers.rs fn index_for_rcurrent
+        //@   ret r
+        //@   props C01,C06,C19
+        //@   req o_index_for_rcurrent is Some ==> o_index_for_rcurrent->Some_0 < u32::MAX
+        //@   req o_index_for_rcurrent is None && highest_index_spec(&config.file_spec) is Some ==> highest_index_spec(&config.file_spec)->Some_0 < u32::MAX - 1
+        //@   closure 1 sig || -> (r: Option<u32>)
+        //@   closure 1 req highest_index_spec(&config.file_spec) is Some ==> highest_index_spec(&config.file_spec)->Some_0 < u32::MAX
+        //@   closure 1 ens r == match highest_index_spec(&config.file_spec) { Some(h) => Some((h + 1) as u32), None => None }
+        //@   closure 2 sig |idx: u32| -> (r: u32)
+        //@   closure 2 req idx < u32::MAX
+        //@   closure 2 ens r == idx + 1
+        //@   ens[index_for_rcurrent.post.oracle] r == index_for_rcurrent_spec(config, o_index_for_rcurrent, rotate_rcurrent)
+        //@   canary
+    }
+    pub mod list_and_cleanup {
+        use super::*;
+        use super::super::parameters::{FileSpec, Cleanup};
+        //@ opaque src/writers/file_log_writer/state/list_and_cleanup.rs struct CleanupThreadHandle
+        impl CleanupThreadHandle {
+        //@ sig src/writers/file_log_writer/state/list_and_cleanup.rs impl CleanupThreadHandle / fn shutdown
+        }
+        pub(crate) open spec fn ohandle(o: Option<&CleanupThreadHandle>) -> Option<CleanupThreadHandle> { match o { Some(h) => Some(*h), None => None } }
+        /// oracle: outcome of the cleanup step (decided for its selection rule in unit/harness `cleanup`)
+        pub uninterp spec fn cleanup_result(o_handle: Option<CleanupThreadHandle>, cleanup: &Cleanup, file_spec: &FileSpec,
+            infix_filter: &InfixFilter, writes_direct: bool) -> Result<(), std::io::Error>;
+        pub uninterp spec fn cleanup_thread_result(cleanup: Cleanup, file_spec: FileSpec, infix_filter: &InfixFilter, writes_direct: bool)
+            -> Result<CleanupThreadHandle, std::io::Error>;
+        //@ sig src/writers/file_log_writer/state/list_and_cleanup.rs fn remove_or_compress_too_old_logfiles
+        //@   ret r
+        //@   ens r == cleanup_result(ohandle(o_cleanup_thread_handle), cleanup_config, file_spec, infix_filter, writes_direct)
+        //@ sig src/writers/file_log_writer/state/list_and_cleanup.rs fn start_cleanup_thread
+        //@   ret r
+        //@   ens r == cleanup_thread_result(cleanup, file_spec, infix_filter, writes_direct)
+    }
+    mod platform {
+        use super::*;
+        //@ sig src/writers/file_log_writer/state.rs mod platform / fn create_symlink_if_possible
     }
 }
 }
+// plain-Rust glue outside verus!: Debug for the opaque shims (never executed, not verified)
+macro_rules! shim_debug { ($($t:ty),*) => { $(impl std::fmt::Debug for $t { fn fmt(&self, _f: &mut std::fmt::Formatter) -> std::fmt::Result { Ok(()) } })* } }
+shim_debug!(parameters::FileSpec, VWriter, state::InfixFormat, flexi_error::FlexiLoggerError);
 fn main() {}
